@@ -203,7 +203,11 @@ theorem ev_commitRetryFire_q (d dl : Rat) (a : Nat) (s : St) (h : QS s) (hcc : s
   have hl : Live { s with out := .ev .commitRetryFire :: s.out, commitCall := .dead } := by
     have := h.cm (Or.inr (by simp [hcc, commitPending]))
     unfold Live; simpa [runR_cons, C13.qStep] using this
-  exact ⟨sendCommitRequest_q cfg _ _ 0 _ (by qg_leaf h) hl rfl hds, (sendCommitRequest_keeps cfg _ _ _).2.1.trans hst⟩
+  have hcr : s.commitReq = none := by
+    cases hq : s.commitReq with
+    | none => rfl
+    | some r => have := h.alt (by simp [hq]); simp [hcc, commitPending] at this
+  exact ⟨sendCommitRequest_q cfg _ _ 0 _ (by qg_leaf h) hl rfl hds hcr (h.lp hds), (sendCommitRequest_keeps cfg _ _ _).2.1.trans hst⟩
 
 section
 variable {inner : Ops} (hin : OpsQ inner) (hs : OpsS inner) (hc : OpsPN Calm inner)
@@ -425,6 +429,17 @@ theorem run_q (n : Nat) (hd : cfg.depth = n + 2) (script : List PEntry) (evs : L
     | nil => intro s h; exact h
     | cons e l ih => intro s h; exact ih _ (step_q n hd e s h)
   exact this evs _ (init_q script)
+
+/-- no `crash` observation so far ⇒ the no-crash monitor accepts the trace -/
+theorem noCrash_of (l : List Item) (h : ∀ site, Item.ob (.crash site) ∉ l) : C13.noCrashOk l.reverse = true := by
+  unfold C13.noCrashOk
+  rw [List.all_eq_true]
+  intro x hx
+  have hx' : x ∈ l := by simpa using hx
+  split
+  · rename_i site
+    exact absurd hx' (h site)
+  · rfl
 
 end
 
